@@ -69,6 +69,7 @@ def judge(spec: dict, out: _gen.GenOutcome, log: core.EventLog):
 
 def run_one(spec: dict) -> dict:
     log = core.EventLog()
+    _gen.run_history_prefix(spec, log)
     out = _gen.execute(spec, log)
     extra = {"draws": out.sim.draws if out.sim is not None else None}
     stats = dict(out.sim.stats()) if out.sim is not None else {}
@@ -104,7 +105,7 @@ def run_one(spec: dict) -> dict:
 def run(spec: dict, ctx) -> dict:
     "spec is either a single run or a batch {'batch': [specs]}"
     if "batch" in spec:
-        return {"status": "batch", "results": [run_one(s) for s in spec["batch"]]}
+        return {"status": "batch", "results": _gen.run_batch(spec["batch"], run_one)}
     return run_one(spec)
 
 
